@@ -7,6 +7,7 @@ R3  MUS tick rate: division * 10^6 / tempo (as emitted) lies within 2.5 % of 140
 R4  XMI time scale: delta times, note durations and the tempo are scaled by the same constant k, the division is tempo*3/25000
     (120 Hz), and every converted song gets its own division.
 """
+import collections
 from ..core import *
 from ..logic import *
 from ..report import Obl, Rule
@@ -394,15 +395,24 @@ def r8_mus_event_bytes(facts):
             return (0, 0)
         n = incs_expr(t)
         return (n, n)
+    # the score cursor: the pointer local that is dereferenced in the condition of the event switch's enclosing loop / incremented most
+    # often inside the switch (found by shape, not by name)
+    cnt = collections.Counter()
+    for y in walk(sws[0]):
+        if isinstance(y, dict) and is_incdec(y) and y.get('op') == '++' and (strip(y['e']).get('t') or {}).get('p') and strip(y['e']).get('k') == 'DeclRefExpr':
+            cnt[strip(y['e'])['id']] += 1
+    if not cnt:
+        raise build.AnalysisBroken('C17.R8: no pointer is advanced inside the event switch')
+    cur_id = cnt.most_common(1)[0][0]
     def incs_expr(e):
         n_ = 0
         for y in walk(e):
             if not isinstance(y, dict):
                 continue
-            if is_incdec(y) and y.get('op') == '++' and (strip(y['e']).get('t') or {}).get('p') and short(strip(y['e']).get('n', '')) == 'cur':
+            if is_incdec(y) and y.get('op') == '++' and strip(y['e']).get('id') == cur_id:
                 n_ += 1
             ap = assign_parts(y)
-            if ap and ap[2] == '+=' and short(strip(ap[0]).get('n', '')) == 'cur' and (strip(ap[0]).get('t') or {}).get('p') and const_of(ap[1]) is not None:
+            if ap and ap[2] == '+=' and strip(ap[0]).get('id') == cur_id and const_of(ap[1]) is not None:
                 n_ += const_of(ap[1])
         return n_
     arms = {}
@@ -460,15 +470,14 @@ def r8_mus_event_bytes(facts):
             return {'&': a & b, '|': a | b, '<<': a << b, '>>': a >> b, '+': a + b, '-': a - b, '*': a * b}.get(op)
         return None
     b1 = b2 = None
+    plain = []
     for x in arms.get(2, []):
         for y in walk(x):
             ap = assign_parts(y)
-            if ap and ap[2] == '=':
-                nm = short(strip(ap[0]).get('n', ''))
-                if nm == 'bit1':
-                    b1 = ap[1]
-                elif nm == 'bit2':
-                    b2 = ap[1]
+            if ap and ap[2] == '=' and strip(ap[0]).get('k') == 'DeclRefExpr':
+                plain.append(ap[1])
+    if len(plain) == 2:
+        b1, b2 = plain       # first data byte (LSB), second data byte (MSB) of the MIDI pitch-bend message, in the order they are built
     bad = None
     if b1 is None or b2 is None:
         bad = 'bit1 / bit2 assignments not found'
@@ -514,11 +523,18 @@ def r10_xmi_rewrites(facts):
     out = []
     fn = facts.fn('xmi2mid_ConvertEvent')
     n = 0
+    data_id = None
+    for b, j, st in fn.cfg.stmts():
+        ap = assign_parts(st['s'])
+        if data_id is None and ap and strip(ap[0]).get('k') == 'DeclRefExpr' and any(isinstance(y, dict) and 'callee' in y and short(callee_name(y)) == 'xmi2mid_read1' for y in walk(ap[1])):
+            data_id = strip(ap[0])['id']
+    if data_id is None:
+        raise build.AnalysisBroken('C17.R10: the first data byte read of xmi2mid_ConvertEvent not found')
     for b, j, st in fn.cfg.stmts():
         ap = assign_parts(st['s'])
         if not ap or ap[2] != '=' or const_of(ap[1]) is None or strip(ap[0]).get('k') != 'DeclRefExpr' or strip(ap[0]).get('parm'):
             continue
-        if short(strip(ap[0]).get('n', '')) != 'data':
+        if strip(ap[0]).get('id') != data_id:
             continue
         n += 1
         ok = False
